@@ -7,7 +7,9 @@ tie:     T2 bit-exact correspondence (Lean Float = IEEE double) against the real
 oracle:  ledger / once-only / floor evaluated on the implementation's trace;
          flight budget (last clause) evaluated per datagrams_to_send() on real
          connections (in-flight bytes of the packets sent by the call <= window -
-         bytes in flight before it, one datagram more while a probe is pending) —
+         bytes in flight before it; one datagram more per probe timeout, the
+         timeouts being counted by the harness from the PTO count, never read from
+         the connection's own _probe_pending flag) —
          including a resuming client whose window is 1199 .. max_datagram_size+1
          from full when its padded Initial+Handshake+1-RTT datagram is built — and
          on the real packet builder over the coalescing x budget grid
@@ -112,6 +114,14 @@ class LedgerMonitor:
         self.full_hits = 0
         self.built = []          # packets protected during the current datagrams_to_send()
         self.tail_padded = 0     # in-flight datagrams that ended in datagram-level padding
+        # the probe allowance is the property's, counted here and not read from the connection:
+        # every probe timeout (a handle_timer() call in which the loss-detection timer expired with
+        # no loss time armed: the PTO count went up) grants ONE datagram beyond the window; a grant
+        # is used up by the first later call that puts in-flight bytes on the wire beyond the window
+        self.grants = {}
+        self.pto_before = None
+        self.timeouts = 0
+        self.probes_beyond_window = 0
 
     def on_packet_built(self, sim, ep, epoch, pn, hdr, payload, outlen):
         # in flight per RFC 9002 section 2, from the plaintext frames (harness/frames.py parser)
@@ -139,17 +149,24 @@ class LedgerMonitor:
         return total
 
     def before_api(self, sim, ep, name, args, kw):
+        if name == "handle_timer":
+            self.pto_before = ep.conn._loss._pto_count
         if name == "datagrams_to_send":
             c = ep.conn
             self.built = []
             known = {id(p) for sp in c._loss.spaces for p in sp.sent_packets.values()}
-            self.pre = (c._loss.congestion_window, c._loss.bytes_in_flight, bool(c._probe_pending), known)
+            self.pre = (c._loss.congestion_window, c._loss.bytes_in_flight, self.grants.get(ep.name, 0), known)
 
     def after_api(self, sim, ep, name, args, kw, res):
         if self.problem:
             return
         self.calls += 1
         loss = ep.conn._loss
+        if name == "handle_timer" and self.pto_before is not None:
+            if loss._pto_count > self.pto_before:
+                self.grants[ep.name] = self.grants.get(ep.name, 0) + 1
+                self.timeouts += 1
+            self.pto_before = None
         if name == "datagrams_to_send" and self.pre is not None and ep.conn._state.name in ("FIRSTFLIGHT", "CONNECTED"):
             # flight budget (last clause of the property): apart from ACK-only packets and
             # one probe datagram per timeout, no more in-flight bytes than the window allows
@@ -162,14 +179,17 @@ class LedgerMonitor:
             if cwnd - bif < ep.conn._max_datagram_size:
                 self.full_hits += 1
             wire = self.wire_in_flight(res)
+            why = (f"window {cwnd}, {bif} already in flight, {probe} unused probe allowance(s) from probe timeouts "
+                   f"({self.timeouts} so far) (allowed {allowed})")
             if new > allowed:
-                self.problem = (f"{ep.name}: one datagrams_to_send() put {new} in-flight bytes on the wire with "
-                                f"window {cwnd}, {bif} already in flight, probe_pending={probe} (allowed {allowed})")
+                self.problem = f"{ep.name}: one datagrams_to_send() put {new} in-flight bytes on the wire with {why}"
             elif wire > allowed:
                 self.problem = (f"{ep.name}: one datagrams_to_send() put {wire} in-flight bytes on the wire (datagrams "
                                 f"{[len(d) for d, _ in res]}, acknowledgement-only packets not counted; the packets "
-                                f"registered with recovery total {new}) with window {cwnd}, {bif} already in flight, "
-                                f"probe_pending={probe} (allowed {allowed})")
+                                f"registered with recovery total {new}) with {why}")
+            if probe and max(new, wire) > max(cwnd - bif, 0):
+                self.grants[ep.name] = probe - 1
+                self.probes_beyond_window += 1
             self.pre = None
         tracked = sum(p.sent_bytes for sp in loss.spaces for p in sp.sent_packets.values() if p.in_flight)
         if loss.bytes_in_flight != tracked or loss.bytes_in_flight < 0:
@@ -235,6 +255,44 @@ def run_ledger_scenario(variant, seed, algo):
                     s.fire_timer(ep)
                 s.transmit(ep)
                 s.pending.clear()
+        elif variant == "pto":
+            # full window, at least two datagrams of stream data still queued, then a blackout long
+            # enough for 1..3 probe timeouts, datagrams_to_send() being called several times after each
+            # (an event loop calls it after every event), optionally with the application waking up
+            s.fair_phase(max_steps=60, done=lambda: c._handshake_confirmed)
+            ep = r.choice(s.endpoints)
+            sid = 0 if ep.is_client else 1
+            lo = ep.conn._loss
+            mds = ep.conn._max_datagram_size
+            s.api(ep, "send_stream_data", sid, bytes(lo.congestion_window + r.choice([2, 3, 8, 30]) * mds), end_stream=False)
+            for _ in range(80):        # the pacer releases the window gradually
+                s.transmit(ep)
+                s.pending.clear()
+                s.now += 0.002
+                if lo.congestion_window - lo.bytes_in_flight < mds:
+                    break
+            for _ in range(r.randrange(1, 4)):
+                for _ in range(6):     # ack / pacing timers may come first
+                    before = lo._pto_count
+                    t = s.check_timer(ep)
+                    if t is None:
+                        break
+                    s.now = max(s.now, t)
+                    s.api(ep, "handle_timer", now=s.now)
+                    if lo._pto_count > before:
+                        break
+                    s.transmit(ep)
+                    s.pending.clear()
+                for _ in range(r.randrange(1, 6)):
+                    x = r.random()
+                    if x < 0.15:
+                        s.api(ep, "send_stream_data", sid, bytes(r.randrange(1, 3000)), end_stream=False)
+                    elif x < 0.25:
+                        s.api(ep, "send_ping", r.randrange(1000))
+                    s.transmit(ep)
+                    s.pending.clear()
+                    s.now += r.choice([0.0, 0.0005, 0.003])
+            s.fair_phase(max_steps=80)     # the blackout ends
         else:
             s.fair_phase(max_steps=60, done=lambda: c._handshake_confirmed)
             for i in range(r.randrange(5, 60)):
@@ -254,17 +312,22 @@ def run_ledger_scenario(variant, seed, algo):
 
 def connection_ledger(ctx, r, n):
     """handshakes with optional Retry / Version Negotiation, then lossy traffic"""
+    probes = 0
     for k in range(n):
         seed = r.randrange(1 << 30)
-        variant = ["plain", "retry", "vn", "full"][k % 4]
-        algo = r.choice(["reno", "cubic"])
+        variant = ["plain", "retry", "vn", "full", "pto", "pto"][k % 6]
+        algo = ["reno", "cubic"][(k // 6) % 2] if variant == "pto" else r.choice(["reno", "cubic"])
         mon, s = run_ledger_scenario(variant, seed, algo)
+        probes += mon.probes_beyond_window if variant == "pto" else 0
         ctx.count(("conn-ledger", seed, variant), mon.calls > 10)
         if mon.problem:
             ctx.witness(mon.problem, {"harness": "ledger", "scenario": variant, "seed": seed, "algo": algo,
                                       "trace": s.log[-30:]},
                         {"oracle": "connection-ledger", "scenario": variant})
     ctx.cov["traces_validated_against_impl"] += n
+    ctx.notes["pto_probe_datagrams_beyond_window"] = probes
+    if probes == 0:
+        ctx.broken.append({"kind": "audit", "hit": "the blackout scenario no longer produces a probe datagram beyond a full window"})
 
 
 # ---------------------------------------------------------------- nearly full window at handshake time
@@ -506,7 +569,7 @@ def main(tier):
         ctx.sample({algo: cases[0][:7]})
         cases = [gen_case(r, algo, r.choice([10, 40]), wellformed=False) for _ in range(n // 3)]
         core.run_cases(ctx, f"recovery-{algo}-malformed", cases, RecoveryImpl, None, nontrivial)
-    connection_ledger(ctx, r, 32 if not thorough else 800)
+    connection_ledger(ctx, r, 48 if not thorough else 900)
     coalesce_budget(ctx, r, thorough)
     builder_flight(ctx, thorough)
     ctx.cov["rule"] = (
@@ -526,7 +589,11 @@ def main(tier):
         "bytes, not just packet.sent_bytes, because padding appended after the last packet belongs to no packet yet is "
         "sent with in-flight packets; the packet-size sum is checked as well. The budget is what the property names: "
         "congestion window minus the bytes counted in flight when the call starts (one max_datagram_size more while a "
-        "probe is pending). Not claimed: that bytes_in_flight itself charges appended padding (the ledger clause defines "
+        "probe allowance is outstanding). The probe allowance is the property's: ONE datagram per probe timeout, a timeout "
+        "being a handle_timer() call that raised the PTO count, counted by the monitor itself (the connection's own "
+        "_probe_pending flag is not consulted) and used up by the first later call that sends in-flight bytes beyond the "
+        "window; blackout scenario: full window, >= 2 datagrams of stream data queued, 1..3 probe timeouts with 1..5 "
+        "datagrams_to_send() calls (and application wake-ups) after each, Reno and CUBIC, either endpoint. Not claimed: that bytes_in_flight itself charges appended padding (the ledger clause defines "
         "it as the total size of the tracked in-flight packets)."
     )
     return ctx.finish()
